@@ -10,7 +10,7 @@ Proof. vm_compute. reflexivity. Qed.
 
 Definition dop_must_override (op : dop) : bool :=
   match op with
-  | DSetItem _ _ | DUpdate _ _ | DIOr _ | DSetDefault _ _ | DCopy => true
+  | DSetItem _ _ | DUpdate _ _ | DIOr _ | DSetDefault _ _ | DCopy | DNew _ => true
   | _ => false
   end.
 
@@ -91,6 +91,10 @@ Section DLemmas.
       destruct (b_dstep s _); reflexivity.
     - (* copy *) reflexivity.
     - (* == *) destruct o; reflexivity.
+    - (* new *)
+      unfold dp_init. destruct (ds_samefield src) eqn:Sm; cbn [b_dstep ds_isdict ds_items]; [reflexivity|].
+      simpl in Hacc. destruct (ds_items s src) as [|p r] eqn:It; [reflexivity|].
+      rewrite (dvmap_all_ok _ Hacc). reflexivity.
   Qed.
 
   Lemma drun_acc_ext (acc : list (res pyval)) s ops :
@@ -245,9 +249,9 @@ Section DInvariant.
   Let PVp := fun v => VV v = Ok v.
 
   Definition src_wf (src : dsource) : Prop :=
-    match src with DSCompat l => Forall (dvalid VK VV) l | _ => True end.
+    match src with DSCompat l | DSSameField l => Forall (dvalid VK VV) l | _ => True end.
   Definition dop_wf (op : dop) : Prop :=
-    match op with DUpdate src _ | DIOr src => src_wf src | _ => True end.
+    match op with DUpdate src _ | DIOr src | DNew src => src_wf src | _ => True end.
 
   Lemma kwloop_valid kw : forall s,
     Forall (dvalid VK VV) s -> Forall (dvalid VK VV) (fst (kwloop VK VV s kw)).
@@ -292,6 +296,7 @@ Section DInvariant.
       exact (d_validate_valid VK VV _ _ _ V_idem E).
     - exact Hs.
     - destruct o; try exact Hs.
+    - destruct (dp_init VK VV (ds_samefield src) (ds_items s src)); exact Hs.
   Qed.
 
   Lemma drun_valid_acc ops : forall s acc,
@@ -320,7 +325,7 @@ Section DInvariant.
     Forall (dvalid VK VV) s -> dop_wf op ->
     proxy_dstep VK VV tg s op = (s', Ok r) ->
     match op with
-    | DCopy => exists l, r = PDict tg l /\ Forall (dvalid VK VV) l
+    | DCopy | DNew _ => exists l, r = PDict tg l /\ Forall (dvalid VK VV) l
     | DIOr _ => r = self_marker /\ Forall (dvalid VK VV) s'
     | _ => True
     end.
@@ -329,6 +334,11 @@ Section DInvariant.
     - pose proof (p_update_valid s src [] Hs Hw) as G.
       destruct (p_update VK VV s src []) as [s1 [[]|e|]]; inversion E; subst. split; auto.
     - inversion E; subst. eauto.
+    - destruct (ds_samefield src) eqn:Sm.
+      + unfold dp_init in E. inversion E; subst. eexists; split; [reflexivity|].
+        destruct src; try discriminate; simpl in *; auto.
+      + pose proof (dinit_valid (ds_items s src)) as G.
+        destruct (dp_init VK VV false (ds_items s src)); inversion E; subst. eauto.
   Qed.
 End DInvariant.
 
